@@ -321,12 +321,35 @@ class Paths:
                 ret = e[1]
         return [(st, _refine(self._val(st, ret), st.facts)) for st in states]
 
+    def _ctor_map(self, path):
+        """field index -> argument index for a crate-local function that only builds a struct from its parameters"""
+        if not hasattr(self, "_ctors"):
+            self._ctors = {}
+        c = self._ctors.get(path, False)
+        if c is not False:
+            return c
+        res = None
+        cands = [g for g in self.prog.by_path.get(path, []) if g.body and g.kind in ("fn", "assoc_fn")]
+        if len(cands) == 1 and len([b for b in cands[0].body["blocks"] if b["t"] and b["t"]["k"] == "return"]) == 1 and len(cands[0].body["blocks"]) == 1:
+            try:
+                ro = Origins(cands[0]).return_origin()
+            except Exception:
+                ro = None
+            while ro is not None and ro[0] in ("ref", "deref"):
+                ro = ro[1]
+            if ro is not None and ro[0] == "agg" and isinstance(ro[1], str) and "::" in ro[1] and not ro[1].startswith("closure:"):
+                adt = self.prog.adts.get(ro[1].rsplit("::", 1)[0])
+                if adt is not None and adt["kind"] == "struct" and all(o[0] == "param" for o in ro[2]):
+                    res = [o[1] - 1 for o in ro[2]]
+        self._ctors[path] = res
+        return res
+
     def _val(self, st, t):
         env = st.env
         t = subst(t, lambda n: env.get(n) if env else None)
         if env and any(isinstance(k, tuple) and k and k[0] == "unit" for k in env):
             t = _unit_calls(t, env)
-        return _simplify(self.canon.tree(_norm_calls(t)))
+        return _simplify(self.canon.tree(_norm_calls(t)), self._ctor_map)
 
     # conditions -----------------------------------------------------------------------------------------
     def _cond(self, st, e):
@@ -461,7 +484,7 @@ class Paths:
     def _split(self, x, kind):
         """cases of an Option/Result value: [(facts, payload-or-None, variant)]"""
         names = STD_VARIANTS[kind]
-        x = _simplify(self.canon.tree(_norm_calls(x)))
+        x = _simplify(self.canon.tree(_norm_calls(x)), self._ctor_map)
         vo = variant_of(x)
         if vo is not None:
             return [([], x[2][0] if x[2] else None, vo[1])]
@@ -504,7 +527,7 @@ class Paths:
             if p.startswith(RES + "::") and vname in ("Ok", "Err"):
                 return [([], [], (ok if vname == "Ok" else err)(cargs[0]))]
             gargs = c[2] if len(c) > 2 else ()
-            return [([], [], _simplify(self.canon.tree(_norm_calls(("call", p, gargs, tuple(cargs))))))]
+            return [([], [], _simplify(self.canon.tree(_norm_calls(("call", p, gargs, tuple(cargs)))), self._ctor_map))]
         return None
 
     def _may_inline(self, g):
@@ -541,7 +564,7 @@ class Paths:
             if n[0] == "call" and len(n) == 5 and isinstance(n[4], str) and n[4].startswith("@"):
                 return n[:4] + (n[4] + inst,)
             return None
-        f = lambda t: _simplify(self.canon.tree(_norm_calls(subst(t, r))))
+        f = lambda t: _simplify(self.canon.tree(_norm_calls(subst(t, r))), self._ctor_map)
         facts = []
         for x in s.facts:
             facts.append(tuple(f(y) if _is_tree(y) else y for y in x))
@@ -1103,10 +1126,15 @@ def _norm_calls(t):
     return subst(t, r)
 
 
-def _simplify(t):
-    """payload/discriminant of constructed values; boolean constants"""
+def _simplify(t, ctor=None):
+    """payload/discriminant of constructed values; boolean constants; a field of a struct just built by a plain
+    constructor function (`Rectangle::new(a, b).size` is `b`)"""
     def r(n):
         k = n[0]
+        if ctor is not None and k == "field" and isinstance(n[2], int) and n[1][0] == "call":
+            m = ctor(n[1][1])
+            if m is not None and n[2] < len(m) and m[n[2]] is not None and m[n[2]] < len(n[1][3]):
+                return n[1][3][m[n[2]]]
         if k in ("payload", "errpayload"):
             vo = variant_of(n[1])
             if vo is not None and n[1][2]:
